@@ -140,7 +140,7 @@ def main(chk):
                 for j in range(i + 1, K):
                     dd = vsub(PT[i], PT[j])
                     cl = S.cmp('eq', S.add(S.mul(S.sub(XY[i][0], XY[j][0]), S.sub(XY[i][0], XY[j][0])), S.mul(S.sub(XY[i][1], XY[j][1]), S.sub(XY[i][1], XY[j][1]))), vdot(dd, dd))
-                    jobs.append((key + '/distance of interface points %d and %d preserved in the xy plane' % (i, j), pc, cl, tmo, 'map', 'interface distorted by the mapping'))
+                    jobs.append((key + '/distance of interface points %d and %d preserved in the xy plane' % (i, j), pc, cl, tmo, 'map', 'interface distorted by the mapping', K == 2))
             # O3 round trip
             cl = S.TRUE
             for i in range(K):
@@ -163,7 +163,7 @@ def main(chk):
     outs = par.prove_all(z, jobs, procs=14)
     for job, (st, model, dt) in zip(jobs, outs):
         name, pc, claim, _t, kind, what = job[:6]
-        core = job[6] if len(job) > 6 else True   # with three or more interface points the distance identities of new points (implied by orthonormality + round trip) are extra
+        core = job[6] if len(job) > 6 else True   # with three or more interface points the distance identities (already decided for two points, the translation cancels in differences) are extra
         chk.ob(name, st, core, dt, sample={'obligation': name, 'status': st} if len(chk.samples) < 8 else None)
         if st == 'violated':
             rep = replay(native, kind, name, model)
